@@ -46,6 +46,10 @@ func admit(c c14Case) (obs, bad string) {
 			if err == otp.ErrInvalidCodeLength && !ok && (c.Shape.Digits < 1 || c.Shape.Digits > 10) {
 				err = otp.ErrInvalidCodeLength
 			}
+		case "generate-rawvalue":
+			_, err = otp.GenerateOCRA("GEZDGNBVGY3TQOJQ", otp.RawSuite{SuiteConfig: c.Shape.lib()}, in.lib())
+		case "rawvalue.Validate":
+			err = otp.RawSuite{SuiteConfig: c.Shape.lib()}.Validate()
 		case "suite.Validate":
 			err = c.Shape.lib().Validate()
 		case "newsuite":
@@ -61,7 +65,7 @@ func admit(c c14Case) (obs, bad string) {
 	switch c.Entry {
 	case "input.Validate":
 		want = ref.Admit(rs, in.ref())
-	case "suite.Validate", "newsuite":
+	case "suite.Validate", "newsuite", "rawvalue.Validate":
 		want = ref.Usable(rs)
 	default:
 		want = ref.Usable(rs) && ref.Admit(rs, in.ref())
@@ -100,6 +104,23 @@ func c14(r *ev.Run) {
 								local++
 								if bad != "" {
 									r.Fail("admission", "suite-clause "+e+" "+sh.sig(), c, bad, obs)
+								}
+							}
+							// the same numbers as a RawSuite VALUE (what a caller holds after editing a constructor's
+							// result), also under a registered name that contradicts them
+							for ti, text := range []string{"s", "OCRA-1:HOTP-SHA1-6:QN08"} {
+								if ti == 1 && (qf+ph+d+h)%2 == 1 {
+									continue
+								}
+								x := sh
+								x.Text = text
+								for _, e := range []string{"rawvalue.Validate", "generate-rawvalue"} {
+									c := c14Case{x, lens, e}
+									obs, bad := admit(c)
+									local++
+									if bad != "" {
+										r.Fail("admission", "suite-clause "+e+" "+x.sig(), c, bad, obs)
+									}
 								}
 							}
 							if ref.Usable(sh.ref()) {
